@@ -16,7 +16,7 @@
    compiler-introduced shared state are outside any Gallina model. *)
 From Coq Require Import List Arith Bool ZArith.
 Import ListNotations.
-From BT.Front Require Import Prefix Decls DeclsProps.
+From BT.Front Require Import Prefix Decls DeclsC17.
 From BT.Gen Require Import Decls.
 From BT.Layout Require Import Model.
 From BT.Tracer Require Import Model Multi MultiProofs BoundsWitness.
